@@ -497,11 +497,18 @@ def act(b, P, depth=[0]):
             raise err.from_message(b[1]) from exc
     if kind == 'resubscribe':
         # a listener that subscribes another listener - which does the same - to the event being delivered (new subscriptions count from the next emit)
-        def again(*a):
-            if len(_RESUB) < 200000:
-                _RESUB.append(1)
-                P.on(b[1], again)
-        again()
+        # Each listener subscribes one successor, the first time it is called.  Where subscriptions count from the next emit this adds one listener per
+        # event (linear); where an emit walks the list it is appending to, the chain runs on within that one emit until the cap, far beyond the step budget.
+        def make():
+            spent = [False]
+
+            def again(*a):
+                if not spent[0] and len(_RESUB) < 100000:
+                    spent[0] = True
+                    _RESUB.append(1)
+                    P.on(b[1], make())
+            return again
+        make()()
         return None
     if kind == 'reenter':
         if depth[0] >= 2:
